@@ -168,6 +168,16 @@ def check_grammar(ex, out, n_iters, what='output'):
     kinds = [e.variant for e in out]
     ok = kinds and kinds[-1] == 'Terminate' and kinds.count('Terminate') == 1 and \
         kinds.count('FlushAndRestart') == n_iters and (len(kinds) < 2 or kinds[-2] == 'FlushAndRestart')
+    if not ok and kinds and kinds[-1] == 'Terminate':
+        # special shape: only FlushBatch markers between the last FlushAndRestart and Terminate
+        k2 = list(kinds[:-1])
+        while k2 and k2[-1] == 'FlushBatch':
+            k2.pop()
+        k2.append('Terminate')
+        if len(k2) < len(kinds) and k2.count('Terminate') == 1 and k2.count('FlushAndRestart') == n_iters and \
+                (len(k2) < 2 or k2[-2] == 'FlushAndRestart'):
+            raise Violation('%s: FlushBatch between the last FlushAndRestart and Terminate '
+                            '(flushbatch_before_terminate)' % what, _wit(ex), {'output': [repr(x) for x in out]})
     if not ok:
         raise Violation('%s violates the stream grammar (expected %d iterations): %s' % (what, n_iters, kinds),
                         _wit(ex), {'output': [repr(x) for x in out]})
